@@ -102,7 +102,7 @@ def plan(tier):
     W = worlds.curated()
     if tier == "quick":
         names = ["chain", "csum-deep", "always", "fail", "dynamic"]
-        return [(W[n], alphabet, 3) for n in names]
+        return [(W[n], alphabet, 3, 1) for n in names]
     return [(W[n], alphabet, 4) for n in W]
 
 
